@@ -1003,8 +1003,14 @@ func currentNodeField(c *Ctx) *types.Var {
 // format parameter forwarded unchanged. A format assembled from a name (fmt.Sprintf("template %s…", name)
 // used as format) turns a '%' in the file name into a mangled message.
 func ruleR19k(c *Ctx) {
+	ruleFormatArgs(c, "R19k", []string{"parse", "soyhtml", "errortypes", "parsepasses", "template"}, 20,
+		"text from the caller that ends up in it (a file name with a '%') is interpreted as formatting verbs, and the message no longer shows the name as given")
+}
+
+// ruleFormatArgs: no printf-like call in the given packages gets a format assembled at run time.
+func ruleFormatArgs(c *Ctx, rule string, rels []string, floor int, consequence string) {
 	n := 0
-	for _, rel := range []string{"parse", "soyhtml", "errortypes", "parsepasses", "template"} {
+	for _, rel := range rels {
 		p := c.Pkgs[rel]
 		if p == nil {
 			c.fatalf("anchor: package %s not loaded", rel)
@@ -1079,17 +1085,17 @@ func ruleR19k(c *Ctx) {
 					good = true
 				}
 				if why, ok := formatExceptions[fmt.Sprintf("%s format-argument#%d", c.declKey(rel, fd), ord)]; ok && !good {
-					c.okTrivial("R19k", fmt.Sprintf("%s format-argument#%d", c.declKey(rel, fd), ord), call.Pos(), "named exception: "+why)
+					c.okTrivial(rule, fmt.Sprintf("%s format-argument#%d", c.declKey(rel, fd), ord), call.Pos(), "named exception: "+why)
 					return true
 				}
-				c.check(good, "R19k", fmt.Sprintf("%s format-argument#%d", c.declKey(rel, fd), ord), call.Pos(),
+				c.check(good, rule, fmt.Sprintf("%s format-argument#%d", c.declKey(rel, fd), ord), call.Pos(),
 					"the format is a constant or the function's own format parameter",
-					"the format handed to "+exprKey(call.Fun)+" is "+exprKey(fa)+", assembled at run time: text from the caller that ends up in it (a file name with a '%') is interpreted as formatting verbs, and the message no longer shows the name as given")
+					"the format handed to "+exprKey(call.Fun)+" is "+exprKey(fa)+", assembled at run time: "+consequence)
 				return true
 			})
 		}
 	}
-	c.floor("R19k", "printf-like calls examined", 20, n)
+	c.floor(rule, "printf-like calls examined", floor, n)
 }
 
 // formatExceptions: formats assembled at run time from text that cannot hold a '%'.
